@@ -173,6 +173,25 @@ def undump(s):
     return out
 
 
+STD_MODULES = {
+    "bad": 'local e = {}\nfunction e.main(frame) error("boom") end\nreturn e',
+    "syn": 'local e = {}\nfunction e.main(frame) return "x" .. end\nreturn e',
+    "retnil": 'local e = {}\nfunction e.main(frame) return nil end\nreturn e',
+    "pp": 'local e = {}\nfunction e.main(frame) return frame:preprocess("{{a|" .. (frame.args[1] or "") .. "}}") end\nreturn e',
+    "nest": 'local e = {}\nfunction e.main(frame) return frame:expandTemplate{title="inv", args={frame.args[1] or "n"}} end\nreturn e',
+}
+STD_TEMPLATES = {
+    "a": "A[{{{1|}}}]",
+    "b": "B({{{1}}},{{{x|dx}}})",
+    "loop": "{{loop}}",
+    "m1": "{{m2}}",
+    "m2": "x{{m1}}",
+    "deep": "{{a|{{a|{{a|{{{1|z}}}}}}}}}",
+    "inv": "{{#invoke:echo|main|{{{1|}}}}}",
+    "badinv": "{{#invoke:bad|main}}",
+    "list": "* item",
+}
+
 _lua_ctx = None
 
 
@@ -182,6 +201,10 @@ def lua_ctx(scratch):
         ctx = new_ctx(scratch)
         ctx.add_page("Module:ustring:ustring", 828, USTRING_STUB, model="Scribunto")
         ctx.add_page("Module:echo", 828, ECHO_MODULE, model="Scribunto")
+        for name, body in STD_MODULES.items():
+            ctx.add_page("Module:" + name, 828, body, model="Scribunto")
+        for name, body in STD_TEMPLATES.items():
+            ctx.add_page("Template:" + name, 10, body)
         ctx.db_conn.commit()
         _lua_ctx = ctx
     return _lua_ctx
@@ -227,3 +250,58 @@ def impl_c14(case, scratch):
         lv = undump(out[2:-2])
     return {"outcome": "ok", "parser": pv, "expander": got[0] if got else None,
             "lua": lv, "lua_raw": out if lv is None else None, "stack": list(ctx.expand_stack)}
+
+
+# ---------------------------------------------------------------- C16
+MSG_KEYS = ["called_from", "msg", "path", "section", "subsection", "title", "trace"]
+
+
+def impl_c16(case, scratch):
+    ctx = lua_ctx(scratch)
+    title = case["title"]
+    ctx.start_page(title)
+    if case.get("section"):
+        ctx.start_section(case["section"])
+    log = []
+
+    def tfn(name, ht):
+        log.append(name)
+        return "<T:%s>" % name if case["tfn"] == "marker" and len(name) % 2 == 0 else None
+
+    def pfn(name, ht, exp):
+        return "<P>" if case["pfn"] == "marker" and len(exp) % 3 == 0 else None
+
+    kw = dict(pre_expand=case["pre_expand"], expand_parserfns=case["parserfns"],
+              expand_invoke=case["invoke"],
+              template_fn=tfn if case["tfn"] else None,
+              post_template_fn=pfn if case["pfn"] else None)
+    if case.get("sel") is not None:
+        kw["templates_to_expand"] = set(case["sel"])
+    problems = []
+    before = list(ctx.expand_stack)
+    out = None
+    for i in range(case["repeat"]):
+        if case["api"] == "parse":
+            ctx.parse(case["text"], pre_expand=case["pre_expand"], expand_all=not case["pre_expand"])
+            if ctx.parser_stack:
+                problems.append(["parser_stack", i, len(ctx.parser_stack)])
+        else:
+            out = ctx.expand(case["text"], **kw)
+        if ctx.expand_stack != before:
+            problems.append(["stack", i, list(ctx.expand_stack)])
+            break
+        if out is not None and "too deep recursion" in out and case.get("flat"):
+            problems.append(["too-deep", i, out[:200]])
+            break
+    nmsgs = 0
+    for lst_name, lst in ctx.to_return().items():
+        for m in lst:
+            nmsgs += 1
+            if sorted(m.keys()) != MSG_KEYS:
+                problems.append(["msg-keys", lst_name, sorted(m.keys())])
+            elif m["title"] != title or m["section"] != (case.get("section") or ""):
+                problems.append(["msg-context", lst_name, m["title"], m["section"]])
+    ctx.start_page(title + "2")
+    if any(len(l) for l in ctx.to_return().values()):
+        problems.append(["not-cleared"])
+    return {"outcome": "ok", "problems": problems, "nmsgs": nmsgs, "out": (out or "")[:300]}
